@@ -11,7 +11,7 @@ use wow_mpq::{
         HexDumpConfig, dump_block_entry, dump_hash_entry, format_bet_table, format_block_table,
         format_hash_table, format_het_table, hex_dump,
     },
-    path::mpq_path_to_system,
+    path::{mpq_path_to_system, sanitize_extraction_path},
     rebuild_archive,
     single_archive_parallel::{ParallelArchive, ParallelConfig},
 };
@@ -823,8 +823,15 @@ fn extract_files_with_options(options: ExtractOptions) -> Result<()> {
             match data_result {
                 Ok(data) => {
                     let output_path = if preserve_paths {
-                        let system_path = mpq_path_to_system(&file);
-                        Path::new(&output_dir).join(system_path)
+                        // Entry names are untrusted: never let one leave the output directory
+                        let relative_path = sanitize_extraction_path(&file);
+                        if relative_path.is_empty() {
+                            log::warn!("Skipping {file}: no usable path components");
+                            error_count += 1;
+                            pb.inc(1);
+                            continue;
+                        }
+                        Path::new(&output_dir).join(relative_path)
                     } else {
                         let system_path = mpq_path_to_system(&file);
                         let filename = Path::new(&system_path).file_name().unwrap_or_default();
@@ -901,9 +908,15 @@ fn extract_files_with_options(options: ExtractOptions) -> Result<()> {
             match chain.read_file(file) {
                 Ok(data) => {
                     let output_path = if preserve_paths {
-                        // Convert MPQ path separators to system path separators
-                        let system_path = mpq_path_to_system(file);
-                        Path::new(&output_dir).join(system_path)
+                        // Entry names are untrusted: never let one leave the output directory
+                        let relative_path = sanitize_extraction_path(file);
+                        if relative_path.is_empty() {
+                            log::warn!("Skipping {file}: no usable path components");
+                            error_count += 1;
+                            pb.inc(1);
+                            continue;
+                        }
+                        Path::new(&output_dir).join(relative_path)
                     } else {
                         // Convert MPQ path to system path, then extract just the filename
                         let system_path = mpq_path_to_system(file);
